@@ -32,7 +32,7 @@ class LeafError(Exception):
     pass
 
 
-RAISES = {"ValueError": "EValue", "RegexNotMatchError": "ERegexNotMatch"}
+RAISES = {"ValueError": "EValue", "RegexNotMatchError": "ERegexNotMatch", "UnreachableError": "EUnreachable"}
 
 # element types of annotated empty lists, and the Coq spelling of translator types
 LIST_ANN = {"list[NoteEvent]": "note_event"}
@@ -41,7 +41,10 @@ COQ_TYPES = {"note_event": "note_event", "int": "Z", "str": "str"}
 
 
 # attributes of typed model records
-ATTRS = {"synctrack": {"bpm_events": ("st_bpm", "bpmevents")},
+ATTRS = {"note_event": {"timestamp": ("n_ts_", "ts"), "end_timestamp": ("n_end_ts", "ts")},
+         "itrack": {"note_events": ("it_notes", "list:note_event")},
+         "chart": {"sync_track": ("c_sync", "synctrack")},
+         "synctrack": {"bpm_events": ("st_bpm", "bpmevents")},
          "bpm": {"tick": ("b_tick", "int"), "bpm": ("b_bpm", "float"), "timestamp": ("b_ts", "ts"), "_proximal_bpm_event_index": ("b_idx", "int")},
          "timed": {"tick": ("t_tick", "int"), "timestamp": ("t_ts", "ts"), "_proximal_bpm_event_index": ("t_idx", "int")},
          "nd": {"tick": ("nd_tick", "int"), "note_track_index": ("nd_idx", "ndidx"), "sustain": ("nd_sus", "int")},
@@ -52,10 +55,12 @@ ATTRS = {"synctrack": {"bpm_events": ("st_bpm", "bpmevents")},
 ATTRS_M = {"metadata": {"resolution": ("meta_resolution", "int")}}
 
 # methods of typed model records: receiver type -> method -> (coq function taking the receiver first, [arg types], result type, monadic?)
-METHODS = {"ndidx": {"is_5_note": ("leaf_is_5_note", [], "bool", False)},
+METHODS = {"bpmevents_": {},
+           "ndidx": {"is_5_note": ("leaf_is_5_note", [], "bool", False)},
            "sp": {"tick_is_after_event": ("leaf_tick_is_after_event", ["int"], "bool", False),
                   "tick_is_during_event": ("leaf_tick_is_during_event", ["int"], "bool", False)},
-           "bpmevents": {"timestamp_at_tick": ("timestamp_at_tick", ["int", "int"], "tuple:ts,int", True)}}
+           "bpmevents": {"timestamp_at_tick": ("timestamp_at_tick", ["int", "int"], "tuple:ts,int", True),
+                         "timestamp_at_tick_no_optimize_return": ("timestamp_at_tick_no_optimize_return", ["int"], "ts", True)}}
 
 
 def find_function(tree, qual):
@@ -91,9 +96,14 @@ class Tr:
     # ---- expressions: returns (code, type, monadic) ------------------------------------------
     def expr(self, e):
         src = ast.unparse(e)
+        if isinstance(e, (ast.BoolOp, ast.Call)) and self.bound_test(e) is not None:
+            return self.bound_test(e), "bool", False
         if src in self.env:
             c, t = self.env[src]
             return c, t, False
+        if isinstance(e, ast.Name) and e.id in getattr(self, "consts", {}):
+            v = self.consts[e.id]
+            return ("(%d)" % v if v < 0 else "%d" % v), "int", False
         if isinstance(e, ast.Constant):
             if isinstance(e.value, bool):
                 return ("true" if e.value else "false"), "bool", False
@@ -104,6 +114,23 @@ class Tr:
             if isinstance(e.value, str) and e.value.isascii() and e.value.isprintable() and '"' not in e.value:
                 return '(of_string "%s"%%string)' % e.value, "str", False
             self.err(e, "constant")
+        if (isinstance(e, ast.Attribute) and isinstance(e.value, ast.Call) and ast.unparse(e.value.func) == "max" and len(e.value.args) == 1
+                and len(e.value.keywords) == 1 and e.value.keywords[0].arg == "key" and isinstance(e.value.keywords[0].value, ast.Lambda)
+                and len(e.value.keywords[0].value.args.args) == 1
+                and ast.unparse(e.value.keywords[0].value.body) == "%s.%s" % (e.value.keywords[0].value.args.args[0].arg, e.attr)):
+            # max(xs, key=lambda e: e.A).A  =  the greatest A  (ValueError on an empty sequence)
+            seq, tseq, mseq = self.expr(e.value.args[0])
+            if not tseq.startswith("list:") or mseq or tseq[5:] not in ATTRS or e.attr not in ATTRS[tseq[5:]]:
+                self.err(e, "max by key")
+            fld, ft = ATTRS[tseq[5:]][e.attr]
+            if ft not in ("int", "ts"):
+                self.err(e, "max by a non-integer key")
+            return "(py_max (map %s %s))" % (fld, seq), ft, True
+        if isinstance(e, ast.Call) and isinstance(e.func, ast.Attribute) and e.func.attr == "total_seconds" and not e.args and not e.keywords:
+            c, t, m = self.expr(e.func.value)
+            if t != "td":
+                self.err(e, "total_seconds of a non-timedelta")
+            return ("(let* d_ := %s in total_seconds d_)" % c) if m else "(total_seconds %s)" % c, "float", True
         if isinstance(e, ast.Attribute):
             c, t, m = self.expr(e.value)
             if t.startswith("some:"):
@@ -162,6 +189,34 @@ class Tr:
                 return self.expr(e.args[0])
             if fsrc == "typ.cast" and len(e.args) == 2 and not e.keywords:
                 return self.expr(e.args[1])
+            if fsrc in getattr(self, "local_defs", {}) and len(e.args) == 1 and not e.keywords:
+                # a local one-expression function: inlined at the call
+                pname, body = self.local_defs[fsrc]
+                a, ta, ma = self.expr(e.args[0])
+                if ma:
+                    self.err(e, "argument of a local function")
+                saved = dict(self.env)
+                self.env[pname] = (a, ta)
+                c, t, m = self.expr(body)
+                self.env = saved
+                return c, t, m
+            if (fsrc == "sum" and len(e.args) == 1 and not e.keywords and isinstance(e.args[0], ast.GeneratorExp) and ast.unparse(e.args[0].elt) == "1"
+                    and len(e.args[0].generators) == 1 and len(e.args[0].generators[0].ifs) == 1 and isinstance(e.args[0].generators[0].target, ast.Name)):
+                g = e.args[0].generators[0]
+                seq, tseq, mseq = self.expr(g.iter)
+                if not tseq.startswith("list:") or mseq:
+                    self.err(e, "sum over a non-sequence")
+                v = g.target.id
+                saved = dict(self.env)
+                self.env[v] = (v, tseq[5:])
+                c, t, m = self.expr(g.ifs[0])
+                self.env = saved
+                if t != "bool" or m:
+                    self.err(e, "count condition")
+                return "(Zlength_ (filter (fun %s => %s) %s))" % (v, c, seq), "int", False
+            if (fsrc == "max" and len(e.args) == 1 and len(e.keywords) == 1 and e.keywords[0].arg == "key" and isinstance(e.keywords[0].value, ast.Lambda)):
+                # max(xs, key=lambda e: e.A): handled by the attribute access around it (see Attribute)
+                self.err(e, "max with key outside `max(xs, key=lambda e: e.A).A`")
             if fsrc in ("all", "next", "max") and len(e.args) == 1 and not e.keywords and isinstance(e.args[0], ast.GeneratorExp):
                 g = e.args[0]
                 if len(g.generators) != 1 or g.generators[0].is_async or not isinstance(g.generators[0].target, ast.Name) or len(g.generators[0].ifs) > 1:
@@ -261,6 +316,8 @@ class Tr:
             if ma or mb:
                 self.err(e, "nested operation that can raise")
             op = type(e.op)
+            if ta == "ts" and tb == "ts" and op is ast.Sub:
+                return "(td_sub %s %s)" % (a, b), "td", True
             if ta == "int" and tb == "int":
                 if op is ast.Add:
                     return "(%s + %s)" % (a, b), "int", False
@@ -366,6 +423,25 @@ class Tr:
             if ta.startswith("list:") and ti == "int" and not ma and not mi:
                 return "(seq_get %s %s)" % (a, i), ta[5:], True
             self.err(e, "subscript")
+        if (isinstance(e, ast.IfExp) and isinstance(e.test, ast.Compare) and len(e.test.ops) == 1 and isinstance(e.test.ops[0], ast.IsNot)
+                and ast.unparse(e.test.comparators[0]) == "None" and ast.unparse(e.test.left) in self.env and self.env[ast.unparse(e.test.left)][1] == "bound"):
+            # A(x) if x is not None else B   for a bound x known (by the enclosing branch) to be a tick or None / a time or None
+            nm = ast.unparse(e.test.left)
+            ctx = getattr(self, "bound_ctx", {}).get(nm)
+            if ctx not in ("tick", "time"):
+                self.err(e, "conditional on a bound outside an isinstance branch")
+            c0, _ = self.env[nm]
+            saved = dict(self.env)
+            self.env[nm] = (c0, "int" if ctx == "tick" else "ts")
+            a, ta, ma = self.expr(e.body)
+            self.env = saved
+            b, tb, mb = self.expr(e.orelse)
+            if ta != tb:
+                self.err(e, "conditional expression branches (%s, %s)" % (ta, tb))
+            ctor = "BTick" if ctx == "tick" else "BTime"
+            if ma or mb:
+                return "(match %s with %s %s => %s | _ => %s end)" % (c0, ctor, c0, a if ma else "Ok %s" % a, b if mb else "Ok %s" % b), ta, True
+            return "(match %s with %s %s => %s | _ => %s end)" % (c0, ctor, c0, a, b), ta, False
         if (isinstance(e, ast.IfExp) and isinstance(e.test, ast.Name) and e.test.id in self.env and self.env[e.test.id][1].startswith("list:")
                 and ast.unparse(e.body) == e.test.id + "[-1]" and ast.unparse(e.orelse) == "None"):
             c0, t0 = self.env[e.test.id]
@@ -426,6 +502,8 @@ class Tr:
         if o in (ast.Is, ast.IsNot) and tb == "none" and ta.startswith("opt:"):
             test = "(match %s with None => true | Some _ => false end)" % a
             return test if o is ast.Is else "(negb %s)" % test
+        if ta == "ts" and tb == "ts":
+            ta = tb = "int"
         if ta == "int" and tb == "int":
             return {ast.Lt: "(%s <? %s)", ast.LtE: "(%s <=? %s)", ast.Eq: "(%s =? %s)"}.get(o, None) % (a, b) if o in (ast.Lt, ast.LtE, ast.Eq) else \
                 {ast.Gt: "(%s <? %s)", ast.GtE: "(%s <=? %s)"}[o] % (b, a) if o in (ast.Gt, ast.GtE) else \
@@ -453,6 +531,31 @@ class Tr:
             if o is ast.Eq:
                 return "(lanes_eqb %s %s)" % (a, b)
         self.err(whole, "comparison on (%s, %s)" % (ta, tb))
+
+    def bound_test(self, e):
+        """Type tests on a parameter that is a tick, a timestamp or None (the model's `bound`)."""
+        src = ast.unparse(e)
+        for nm, (c0, t0) in list(self.env.items()):
+            if t0 != "bound":
+                continue
+            table = {"%s is None or isinstance(%s, int)" % (nm, nm): "(match %s with BTime _ => false | _ => true end)" % c0,
+                     "isinstance(%s, timedelta)" % nm: "(match %s with BTime _ => true | _ => false end)" % c0,
+                     "%s is None or isinstance(%s, timedelta)" % (nm, nm): "(match %s with BTick _ => false | _ => true end)" % c0}
+            if src in table:
+                return table[src]
+        return None
+
+    def bound_branch_ctx(self, test):
+        """Which bound names does a true outcome of this test narrow, and to what?"""
+        src = ast.unparse(test)
+        out = {}
+        for nm, (c0, t0) in self.env.items():
+            if t0 == "bound":
+                if src == "%s is None or isinstance(%s, int)" % (nm, nm):
+                    out[nm] = "tick"
+                if src in ("isinstance(%s, timedelta)" % nm, "%s is None or isinstance(%s, timedelta)" % (nm, nm)):
+                    out[nm] = "time"
+        return out
 
     def coerce(self, code, have, want, node=None):
         if have == want or want is None:
@@ -487,6 +590,10 @@ class Tr:
                 return x
             if isinstance(x, ast.UnaryOp) and isinstance(x.op, ast.Not):
                 return ast.UnaryOp(op=x.op, operand=walk(x.operand))
+            if isinstance(x, ast.Attribute) and isinstance(x.value, ast.Call) and ast.unparse(x.value.func) == "max" and x.value.keywords:
+                return x        # max(xs, key=lambda e: e.A).A is one operation
+            if isinstance(x, ast.Call) and isinstance(x.func, ast.Attribute) and x.func.attr == "total_seconds":
+                return ast.Call(func=ast.Attribute(value=walk(x.func.value), attr="total_seconds", ctx=ast.Load()), args=[], keywords=[])
             if isinstance(x, ast.Attribute):
                 return ast.Attribute(value=lift(x.value), attr=x.attr, ctx=ast.Load())
             if isinstance(x, ast.Call):
@@ -553,6 +660,9 @@ class Tr:
                 return self.wrap(binds, "let* r_ := %s in Ok (r_, %s)" % (c, lg))
             return self.wrap(binds, "Ok (%s, %s)" % (c, lg))
         binds, c, t, m = self.lifted(e)
+        if self.ret_type.startswith("opt:") and t in (self.ret_type[4:], "none"):
+            c = "(let* r_ := %s in Ok (Some r_))" % c if (m and t != "none") else ("(Some %s)" % c if t != "none" else "None")
+            m = m and t != "none"
         if self.ret_type == "sustain" and t in ("int", "list:opt:int"):
             # ComplexSustain = Ticks | SustainTuple: the model's tagged union
             tag = "SInt" if t == "int" else "STuple"
@@ -586,6 +696,46 @@ class Tr:
             if exc not in RAISES:
                 self.err(s, "raise of %s" % exc)
             return "Err %s" % RAISES[exc]
+        # def f(x): return E      (a local one-expression function, inlined at its calls)
+        if (isinstance(s, ast.FunctionDef) and len(s.args.args) == 1 and not s.decorator_list and len(s.body) == 1 and isinstance(s.body[0], ast.Return)):
+            self.local_defs = dict(getattr(self, "local_defs", {}))
+            self.local_defs[s.name] = (s.args.args[0].arg, s.body[0].value)
+            return self.block(rest)
+        # try: X = E  except KeyError: raise ValueError(...)
+        if (isinstance(s, ast.Try) and len(s.body) == 1 and isinstance(s.body[0], ast.Assign) and len(s.body[0].targets) == 1
+                and isinstance(s.body[0].targets[0], ast.Name) and len(s.handlers) == 1 and ast.unparse(s.handlers[0].type) == "KeyError"
+                and len(s.handlers[0].body) == 1 and isinstance(s.handlers[0].body[0], ast.Raise) and not s.orelse and not s.finalbody):
+            exc = ast.unparse(s.handlers[0].body[0].exc.func if isinstance(s.handlers[0].body[0].exc, ast.Call) else s.handlers[0].body[0].exc)
+            if exc not in RAISES:
+                self.err(s, "raise of %s" % exc)
+            binds, c, t, m = self.lifted(s.body[0].value)
+            if not m:
+                self.err(s, "try around an expression that cannot raise")
+            nm = s.body[0].targets[0].id
+            self.env[nm] = (nm, t)
+            inner = self.wrap(binds, c).replace("\n  ", " ")
+            k = self.block(rest)
+            return "let* %s := (match (%s) with Err EKey => Err %s | r_ => r_ end) in\n  %s" % (nm, inner, RAISES[exc], k)
+        # assert X is not None   (an optional that is a value from here on)
+        if (isinstance(s, ast.Assert) and s.msg is None and isinstance(s.test, ast.Compare) and len(s.test.ops) == 1 and isinstance(s.test.ops[0], ast.IsNot)
+                and ast.unparse(s.test.comparators[0]) == "None"):
+            c, t, m = self.expr(s.test.left)
+            if t.startswith("opt:") and not m:
+                self.fresh += 1
+                v = "v%d_" % self.fresh
+                self.env[ast.unparse(s.test.left)] = (v, t[4:])
+                k = self.block(rest)
+                return "match %s with\n  | None => Err EAssertion\n  | Some %s =>\n  %s\n  end" % (c, v, k)
+        # assert C
+        if isinstance(s, ast.Assert) and s.msg is None:
+            binds, c, t, m = self.lifted(s.test)
+            if t != "bool" or m:
+                self.err(s, "assertion")
+            saved_ctx = dict(getattr(self, "bound_ctx", {}))
+            self.bound_ctx = dict(saved_ctx, **self.bound_branch_ctx(s.test))
+            k = self.block(rest)
+            self.bound_ctx = saved_ctx
+            return self.wrap(binds, "if %s then\n  %s else Err EAssertion" % (c, k))
         # a statement the target's table replaces by a constant of the configuration, after checking its text
         if isinstance(s, (ast.Assign, ast.AnnAssign)) and ast.unparse(s.targets[0] if isinstance(s, ast.Assign) else s.target) in getattr(self, "const_stmts", {}):
             nm = ast.unparse(s.targets[0] if isinstance(s, ast.Assign) else s.target)
@@ -1073,8 +1223,10 @@ class Tr:
                             if n not in names:
                                 names.append(n)
                 return names
+            def terminates(stmts):
+                return bool(stmts) and isinstance(stmts[-1], (ast.Raise, ast.Return))
             a_then, a_else = assigned(s.body), assigned(s.orelse)
-            joined = [n for n in a_then if n in a_else]
+            joined = a_then if terminates(s.orelse) else a_else if terminates(s.body) else [n for n in a_then if n in a_else]
             if not joined:
                 self.err(s, "if/else followed by code, with no commonly assigned name")
             synth = ast.Return(value=ast.Tuple(elts=[ast.Name(id=n, ctx=ast.Load()) for n in joined], ctx=ast.Load()) if len(joined) > 1
@@ -1086,9 +1238,11 @@ class Tr:
             types = {}
             def branch(stmts):
                 self.env = dict(env0)
+                self.env_after = {}
                 code = self.block(list(stmts) + [synth])
-                for n in joined:
-                    types.setdefault(n, []).append(self.env_after.get(n))
+                if not terminates(stmts):
+                    for n in joined:
+                        types.setdefault(n, []).append(self.env_after.get(n))
                 return code
             if (isinstance(t, ast.Compare) and len(t.ops) == 1 and isinstance(t.ops[0], ast.Is) and ast.unparse(t.comparators[0]) == "None"
                     and ast.unparse(t.left) in self.env and self.env[ast.unparse(t.left)][1].startswith("opt:")):
@@ -1109,12 +1263,16 @@ class Tr:
                 binds, c, ty, m = self.lifted(t)
                 if ty != "bool" or m or binds:
                     self.err(t, "condition")
-                code = "if %s then %s else %s" % (c, branch(s.body), branch(s.orelse))
+                saved_ctx = dict(getattr(self, "bound_ctx", {}))
+                self.bound_ctx = dict(saved_ctx, **self.bound_branch_ctx(t))
+                then_code = branch(s.body)
+                self.bound_ctx = saved_ctx
+                code = "if %s then %s else %s" % (c, then_code, branch(s.orelse))
             self.monadic_fn, self.procedure = saved_m, saved_p
             self.env = dict(env0)
             for n in joined:
                 ts_ = types.get(n, [])
-                if len(ts_) != 2 or ts_[0] is None or ts_[0] != ts_[1]:
+                if not ts_ or ts_[0] is None or any(t_ != ts_[0] for t_ in ts_):
                     self.err(s, "joined name %s has different types in the two branches (%s)" % (n, ts_))
                 self.env[n] = (n, ts_[0])
             k = self.block(rest)
@@ -1251,6 +1409,23 @@ class Tr:
 # targets
 # --------------------------------------------------------------------------------------------------
 
+def module_int_consts(tree):
+    """Module-level names bound once to an integer literal (NAME = 60, NAME: typ.Final[int] = 60)."""
+    out, seen = {}, {}
+    for n in tree.body:
+        tgt = val = None
+        if isinstance(n, ast.Assign) and len(n.targets) == 1 and isinstance(n.targets[0], ast.Name):
+            tgt, val = n.targets[0].id, n.value
+        elif isinstance(n, ast.AnnAssign) and isinstance(n.target, ast.Name) and n.value is not None:
+            tgt, val = n.target.id, n.value
+        if tgt is None:
+            continue
+        seen[tgt] = seen.get(tgt, 0) + 1
+        if isinstance(val, ast.Constant) and isinstance(val.value, int) and not isinstance(val.value, bool):
+            out[tgt] = val.value
+    return {k: v for k, v in out.items() if seen.get(k) == 1}
+
+
 def enum_int(tree, cls, member):
     for n in tree.body:
         if isinstance(n, ast.ClassDef) and n.name == cls:
@@ -1263,16 +1438,20 @@ def enum_int(tree, cls, member):
 
 def group_tick():
     tree = ast.parse(open(os.path.join(REPO, "chartparse", "tick.py")).read())
+    consts = module_int_consts(tree)
     out = []
     for name in ("add", "sum", "difference", "between"):
         f = find_function(tree, name)
         t = Tr("leaf_tick_" + name, {"a": ("a", "int"), "b": ("b", "int")}, {}, "int")
+        t.consts = consts
         out.append(t.function(f, [("a", "Z"), ("b", "Z")], False))
     f = find_function(tree, "seconds_from_ticks_at_bpm")
     t = Tr("leaf_seconds", {"ticks": ("ticks", "int"), "bpm": ("bpm", "float"), "resolution": ("resolution", "int")}, {}, "float")
+    t.consts = consts
     out.append(t.function(f, [("ticks", "Z"), ("bpm", "f64"), ("resolution", "Z")], True))
     f = find_function(tree, "note_duration_to_ticks")
     t = Tr("leaf_note_duration_to_ticks", {"resolution": ("resolution", "int"), "note_duration.value": ("dv", "int")}, {}, "int")
+    t.consts = consts
     out.append(t.function(f, [("resolution", "Z"), ("dv", "Z")], True))
     return out
 
@@ -1567,6 +1746,33 @@ Definition mk_chart (m : metadata) (g : global_events_track) (s : sync_track) (t
 """
 
 
+def group_nps():
+    chart = ast.parse(open(os.path.join(REPO, "chartparse", "chart.py")).read())
+    instr = ast.parse(open(os.path.join(REPO, "chartparse", "instrument.py")).read())
+    out = []
+    f = find_function(instr, "InstrumentTrack.last_note_end_timestamp")
+    out.append(Tr("leaf_last_note_end_timestamp", {"self.note_events": ("(it_notes tr)", "list:note_event")}, {}, "opt:ts").function(f, [("tr", "itrack")], True))
+    f = find_function(chart, "Chart._notes_per_second")
+    env = {"events": ("events", "list:note_event"), "start_time": ("start_time", "ts"), "end_time": ("end_time", "ts")}
+    out.append(Tr("leaf_nps_core", env, {}, "float").function(f, [("events", "list note_event"), ("start_time", "Z"), ("end_time", "Z")], True))
+    f = find_function(chart, "Chart.notes_per_second")
+    env = {"self.instrument_tracks": ("(c_tracks self)", "dict:str,dict:str,itrack"), "self.sync_track": ("(c_sync self)", "synctrack"),
+           "instrument": ("instrument", "str"), "difficulty": ("difficulty", "str"), "start": ("start", "bound"), "end": ("end_", "bound"),
+           "timedelta(0)": ("0", "ts")}
+    calls = {"self._notes_per_second": ("leaf_nps_core", ["list:note_event", "ts", "ts"], "float", True)}
+    ATTRS["itrack"]["last_note_end_timestamp"] = ("last_note_end", "opt:ts")
+    out.append(Tr("leaf_notes_per_second", env, calls, "float").function(
+        f, [("self", "chart"), ("instrument", "str"), ("difficulty", "str"), ("start", "bound"), ("end_", "bound")], True))
+    return out
+
+
+NPS_HEADER = """From CP Require Import Base.Prelude Base.Str Base.Cfg Base.Loops Base.While Base.Float64 Base.Timedelta Model.Lines Model.Sync Model.Instrument Model.Chart.
+Open Scope Z_scope.
+Definition n_ts_ (e : note_event) : Z := t_ts (n_at e).
+Definition dict_get {A} (d : list (str * A)) (k : str) : result A := match assoc k d with Some v => Ok v | None => Err EKey end.
+"""
+
+
 def group_bpm():
     sync = ast.parse(open(os.path.join(REPO, "chartparse", "sync.py")).read())
     track = ast.parse(open(os.path.join(REPO, "chartparse", "track.py")).read())
@@ -1671,6 +1877,7 @@ GROUPS = [
     ("Leaf_dispatch", group_dispatch, DISPATCH_HEADER),
     ("Leaf_tracks", group_tracks, TRACKS_HEADER),
     ("Leaf_fromfile", group_fromfile, FROMFILE_HEADER),
+    ("Leaf_nps", group_nps, NPS_HEADER),
     ("Leaf_bpm", group_bpm, BPM_HEADER),
     ("Leaf_timed", group_timed, TIMED_HEADER),
     ("Leaf_query", group_query, "From CP Require Import Base.Prelude Base.Loops Base.Float64 Base.Timedelta Model.Sync Gen.Leaf_tick.\nOpen Scope Z_scope.\n"),
